@@ -17,7 +17,7 @@
    member: proved for the repaired constructor (C15_compound_after_last_fixed) and
    REFUTED for the code as it is (C15_compound_completion_refuted,
    C15_code_compound_reported_at_add: the report is the first thing that happens). *)
-From PV Require Import Base.Tac Compound.CompoundDefs Compound.CompoundAbs Compound.CompoundProofs.
+From PV Require Import Base.Tac Compound.CompoundDefs Compound.CompoundAbs Compound.CompoundProofs Compound.CompoundBare.
 Local Open Scope nat_scope.
 
 Lemma nonempty_len (sizes : list nat) : sizes <> [] -> 0 < length sizes.
@@ -127,6 +127,29 @@ Proof.
   intros H. exact (H 0 (Nat.lt_0_succ _) 0 (Nat.lt_0_succ _)).
 Qed.
 Print Assumptions C15_compound_completion_refuted.
+
+(* Members with no local work at all (a bare parsec_taskpool_t: no detector of its own, no
+   startup hook, no pending action) terminate INSIDE parsec_context_add_taskpool, which runs
+   parsec_composed_taskpool_cb re-entrantly.  The executable model that is run against the code
+   (CompoundDefs.stepB / runB: members are [Some size] or [None] = bare) mirrors that recursion;
+   it is the model of the theorems above whenever no member is bare.  The theorems do NOT
+   quantify over compositions with bare members: those are tied to the code by the differential
+   run and the oracle only (checks/C15.py, corpus/C15). *)
+Theorem C15_model_with_bare_members_conservative : forall pre sizes evs,
+  runB pre (map Some sizes) evs = run pre sizes evs.
+Proof. exact runB_no_bare. Qed.
+Print Assumptions C15_model_with_bare_members_conservative.
+
+(* A ; E ; B with E bare (the composition of seeded/C15a): adding the compound runs nothing of B
+   before A ended; when A's last task ends, E completes inside the callback of A and B is enabled
+   by the callback of E; everything exactly once, the compound last *)
+Example C15_example_bare_member :
+  let ms := [Some 1; None; Some 1] in
+  let s := runB true ms [EAdd; EStartup 0; EBegin 0 0; EStartupDone 0; EEnd 0 0; EStartup 2; EStartupDone 2; EBegin 2 0; EEnd 2 0] in
+  c_done s = 3 /\ enqs s = [1; 1; 1] /\ ran s = [1; 0; 1] /\ c_cb s = 1 /\ active s = 0%Z /\
+  seq_okB (bare_of ms) s = true /\ compound_lastB (bare_of ms) s = true /\
+  rev (log s) = [LEnq 0; LBegin 0 0; LEnd 0 0; LPoolCb 0; LPoolCb 1; LEnq 2; LEnq 1; LBegin 2 0; LEnd 2 0; LPoolCb 2; LCompound].
+Proof. vm_compute. repeat split. Qed.
 
 (* non-vacuity: a compound of three members (2, 0 and 1 tasks) runs to completion under
    an interleaved schedule, with both constructors *)
